@@ -78,4 +78,39 @@ def rescaleAt [Zero K] [One K] [Add K] [Sub K] [Mul K] [Div K] [DecidableEq K] [
   let m := interp1 supp y x
   interp img y x * (if m < eps then 0 else m)
 
+/-- the `shape=` argument of `util.rescale`: absent, a scalar, or a pair -/
+inductive ShapeArg where
+  | default
+  | scalar (m : Int)
+  | pair (m0 m1 : Int)
+
+/-- output shape for each form of `shape=` **as the source computes it** (regenerated `Gen.rescaleCeilArg`, `rescaleCeilArgScalar`,
+`rescaleCeilArgPair`): the explicit shape is given in INPUT samples and is multiplied by the scale like the image shape -/
+def gridShapeArg [Add K] [Sub K] [Mul K] [Div K] (ceil : K → Int) (ofInt : Int → K) (n0 n1 : Int) (sh : ShapeArg) (s : K) : Int × Int :=
+  match sh with
+  | .default => gridShape ceil ofInt n0 n1 s
+  | .scalar m => let a := Gen.rescaleCeilArgScalar (ofInt m) s; (ceil a.1, ceil a.2)
+  | .pair m0 m1 => let a := Gen.rescaleCeilArgPair (ofInt m0) (ofInt m1) s; (ceil a.1, ceil a.2)
+
+/-- which part of a complex image a name of the regenerated table `Gen.rescaleComplexParts` denotes -/
+def complexPart (re im : Int → Int → K) (name : String) : Option (Int → Int → K) :=
+  if name = "img.real" then some re else if name = "img.imag" then some im else none
+
+/-- `util.rescale(img, scale, mask=None, unitary=False)` for COMPLEX `img = re + i·im` at output sample `(i, j)`, as (real, imaginary):
+each output part is the interpolant of the input part the source names (`Gen.rescaleComplexParts`), on the same coordinates, times the
+support mask of `img != 0` (non-zero real OR imaginary part). `none` = the table names something else. -/
+def rescaleComplexAt [Zero K] [One K] [Add K] [Sub K] [Mul K] [Div K] [DecidableEq K] [LT K] [DecidableLT K]
+    (interp interp1 : (Int → Int → K) → K → K → K) (ceil : K → Int) (ofInt : Int → K) (two eps : K)
+    (n0 n1 : Int) (re im : Int → Int → K) (s : K) (i j : Int) : Option (K × K) :=
+  let S0 := outShape ceil ofInt n0 s
+  let S1 := outShape ceil ofInt n1 s
+  let y := coord ofInt two S0 n0 s i
+  let x := coord ofInt two S1 n1 s j
+  let supp : Int → Int → K := fun a b => if re a b = 0 ∧ im a b = 0 then 0 else 1
+  let m := interp1 supp y x
+  let mm := if m < eps then 0 else m
+  match (Gen.rescaleComplexParts.lookup "out.real").bind (complexPart re im), (Gen.rescaleComplexParts.lookup "out.imag").bind (complexPart re im) with
+  | some pr, some pi => some (interp pr y x * mm, interp pi y x * mm)
+  | _, _ => none
+
 end Lentil.Resc
